@@ -16,6 +16,7 @@
 
 #include <crypto/common.h>
 #include <base58.h>
+#include <bech32.h>
 #include <blockencodings.h>
 #include <chainparams.h>
 #include <common/bloom.h>
@@ -36,6 +37,8 @@
 #include <crypto/siphash.h>
 #include <hash.h>
 #include <key.h>
+#include <key_io.h>
+#include <addresstype.h>
 #include <merkleblock.h>
 #include <primitives/block.h>
 #include <primitives/transaction.h>
@@ -1130,6 +1133,146 @@ OP(taproot_merkle_root)
     if (control.size() < 33 || (control.size() - 33) % 32) throw UsageError("bad control block size");
     UniValue o = Obj();
     o.pushKV("root", Hex(ComputeTaprootMerkleRoot(control, U256(r, "leaf_hash"))));
+    return o;
+}
+
+/** {"op":"eval_script","script":hex,"stack":[hex,...],"flags":[...],"sigversion":"base|witness_v0|tapscript",
+ *   optional "tx":hex,"idx":n,"spent":[{"amount","spk"},...] (absent: BaseSignatureChecker, every signature check fails)}
+ *  -> {"ok":bool,"err":ScriptErrorString,"stack":[hex,...] (final stack, also on failure)}   (EvalScript, 6-argument overload) */
+OP(eval_script)
+{
+    const Bytes_t sc = Bytes(r, "script");
+    const CScript script(sc.begin(), sc.end());
+    std::vector<Bytes_t> stack;
+    if (Has(r, "stack")) {
+        const UniValue& a = Field(r, "stack").get_array();
+        for (size_t i = 0; i < a.size(); ++i) stack.push_back(HexToBytes(a[i].get_str(), "stack"));
+    }
+    const SigVersion sv = SigVer(Str(r, "sigversion"));
+    ScriptError err = SCRIPT_ERR_UNKNOWN_ERROR;
+    bool ok;
+    if (Has(r, "tx")) {
+        const CMutableTransaction mtx = TxFrom(r);
+        const CTransaction tx(mtx);
+        const unsigned idx = static_cast<unsigned>(U64(r, "idx"));
+        std::vector<CTxOut> spent = SpentFrom(r);
+        if (idx >= tx.vin.size() || spent.size() != tx.vin.size()) throw UsageError("idx/spent do not match the transaction");
+        const CAmount amount = spent[idx].nValue;
+        PrecomputedTransactionData txdata;
+        txdata.Init(tx, std::move(spent), Bool(r, "force", false));
+        GenericTransactionSignatureChecker<CTransaction> checker(&tx, idx, amount, txdata, MissingDataBehavior::FAIL);
+        ok = EvalScript(stack, script, ParseFlags(r), checker, sv, &err);
+    } else {
+        BaseSignatureChecker checker;
+        ok = EvalScript(stack, script, ParseFlags(r), checker, sv, &err);
+    }
+    UniValue st(UniValue::VARR);
+    for (auto& e : stack) st.push_back(Hex(e));
+    UniValue o = Obj();
+    o.pushKV("ok", ok);
+    o.pushKV("err", ScriptErrorString(err));
+    o.pushKV("stack", st);
+    return o;
+}
+
+/** {"op":"bip32","seed":hex (16..64 bytes),"path":[uint32,...]} -> {"steps":[{"ok":bool,"xprv":hex74,"xpub":hex74,"pub_derive_ok":bool,
+ *   "xpub_from_pub":hex74|""},...]}: step 0 = master (CExtKey::SetSeed); step i = Derive(path[i-1]) of step i-1; xpub = Neuter();
+ *   xpub_from_pub = CExtPubKey::Derive of the previous step's neutered key (only attempted for unhardened indexes). Stops at the first failed Derive. */
+OP(bip32)
+{
+    const Bytes_t seed = Bytes(r, "seed");
+    CExtKey cur;
+    cur.SetSeed(AsB(seed));
+    UniValue steps(UniValue::VARR);
+    auto push = [&](const CExtKey& k, bool ok, bool pub_ok, const std::string& from_pub) {
+        UniValue e = Obj();
+        e.pushKV("ok", ok);
+        if (ok) {
+            unsigned char code[BIP32_EXTKEY_SIZE];
+            k.Encode(code);
+            e.pushKV("xprv", Hex(code));
+            k.Neuter().Encode(code);
+            e.pushKV("xpub", Hex(code));
+        }
+        e.pushKV("pub_derive_ok", pub_ok);
+        e.pushKV("xpub_from_pub", from_pub);
+        steps.push_back(e);
+    };
+    push(cur, true, false, "");
+    const UniValue& path = Field(r, "path").get_array();
+    for (size_t i = 0; i < path.size(); ++i) {
+        const uint32_t idx = static_cast<uint32_t>(path[i].getInt<uint64_t>());
+        bool pub_ok = false;
+        std::string from_pub;
+        if (idx < 0x80000000U) {
+            CExtPubKey child;
+            pub_ok = cur.Neuter().Derive(child, idx);
+            if (pub_ok) {
+                unsigned char code[BIP32_EXTKEY_SIZE];
+                child.Encode(code);
+                from_pub = Hex(code);
+            }
+        }
+        CExtKey next;
+        const bool ok = cur.Derive(next, idx);
+        push(next, ok, pub_ok, from_pub);
+        if (!ok) break;
+        cur = next;
+    }
+    UniValue o = Obj();
+    o.pushKV("steps", steps);
+    return o;
+}
+
+/** {"op":"bech32","dir":"enc","hrp":str,"values":[0..31,...],"enc":"bech32|bech32m"} -> {"str":...}
+ *  {"op":"bech32","dir":"dec","str":str (or "str_hex"),"limit":n? (default 90)} -> {"enc":"bech32|bech32m|invalid","hrp":str,"values":[...]} */
+OP(bech32)
+{
+    UniValue o = Obj();
+    if (Str(r, "dir") == "enc") {
+        std::vector<uint8_t> vals;
+        const UniValue& a = Field(r, "values").get_array();
+        for (size_t i = 0; i < a.size(); ++i) vals.push_back(static_cast<uint8_t>(a[i].getInt<uint64_t>()));
+        const std::string e = Str(r, "enc");
+        if (e != "bech32" && e != "bech32m") throw UsageError("enc must be bech32 or bech32m");
+        o.pushKV("str", bech32::Encode(e == "bech32" ? bech32::Encoding::BECH32 : bech32::Encoding::BECH32M, Str(r, "hrp"), vals));
+        return o;
+    }
+    const auto res = bech32::Decode(RawStr(r, "str"), static_cast<bech32::CharLimit>(I64d(r, "limit", 90)));
+    o.pushKV("enc", res.encoding == bech32::Encoding::BECH32 ? "bech32" : res.encoding == bech32::Encoding::BECH32M ? "bech32m" : "invalid");
+    o.pushKV("hrp", res.hrp);
+    UniValue vals(UniValue::VARR);
+    for (uint8_t v : res.data) vals.push_back(int{v});
+    o.pushKV("values", vals);
+    return o;
+}
+
+/** {"op":"dest","dir":"enc","chain":"main|test|testnet4|signet|regtest","spk":hex} -> {"ok":bool (ExtractDestination),"addr":str (EncodeDestination)}
+ *  {"op":"dest","dir":"dec","chain":...,"str":str} -> {"valid":bool,"spk":hex (GetScriptForDestination),"err":str}
+ *  Selects the chain for the call and restores REGTEST afterwards. */
+OP(dest)
+{
+    const auto chain = ChainTypeFromString(Str(r, "chain"));
+    if (!chain) throw UsageError("unknown chain");
+    struct Restore {
+        ~Restore() { SelectParams(ChainType::REGTEST); }
+    } restore;
+    SelectParams(*chain);
+    UniValue o = Obj();
+    if (Str(r, "dir") == "enc") {
+        const Bytes_t spk = Bytes(r, "spk");
+        CTxDestination d;
+        const bool ok = ExtractDestination(CScript(spk.begin(), spk.end()), d);
+        o.pushKV("ok", ok);
+        o.pushKV("addr", EncodeDestination(d));
+        return o;
+    }
+    std::string err;
+    const CTxDestination d = DecodeDestination(RawStr(r, "str"), err);
+    const bool valid = IsValidDestination(d);
+    o.pushKV("valid", valid);
+    o.pushKV("spk", valid ? Hex(GetScriptForDestination(d)) : std::string());
+    o.pushKV("err", err);
     return o;
 }
 
